@@ -345,8 +345,39 @@ def run(case):
     tags = [case["lib"], "q:%s" % case["q"], "ignoreMarks:%s" % case["ignoreMarks"], "langsys:%s" % bool(case["langsys"]),
             "gdef:%s" % case["gdef"], "err:" + str(obs.get("err")), "scripts:%d" % len([s for s in scripts if s not in ("Zyyy", "Zinh")])] + \
         (["bidir"] if len(dirs) > 1 else []) + (["skipped"] if rec.get("skipped") else []) + (["alts"] if case["alts"] else [])
-    return [{"op": "kern", "in": inp, "obs": obs, "tags": tags,
+    reqs = [{"op": "kern", "in": inp, "obs": obs, "tags": tags,
              "nontrivial": (len(dirs) > 1 or depth2) and any(e for _, e in applied)}]
+    if obs["err"] is None:
+        reqs.append(_apply_request(tt, names, inp, rec["program"], tags, (len(dirs) > 1 or depth2)))
+    return reqs
+
+
+def _apply_request(tt, names, inp, program, tags, rich):
+    """op "apply": the adjustment table of the COMPILED font (independent interpreter gpos.pair_adjust) for every script tag - the
+    tags of the compiled ScriptList, the tags the writer registered, DFLT and one tag that is registered nowhere (a shaper falls
+    back to DFLT) - and every ordered pair of the font's glyphs, against `applyKern` evaluated in Lean on the MODEL's program."""
+    import gpos
+    sf = gpos.script_features(tt) if "GPOS" in tt else {}
+    order = set(tt.getGlyphOrder())
+    gl = [g for g in names if g in order]
+    atags = sorted(set(sf) | {r[0] for r in program["kern"]} | {r[0] for r in program["dist"]} | {"DFLT", "zzzz"})
+    table = []
+    for tag in atags:
+        lk = gpos.lookups_for(tt, tag if tag in sf else "DFLT", "dflt", {"kern", "dist"}) if sf else None
+        ent = []
+        if lk:
+            for g1 in gl:
+                for g2 in gl:
+                    a = gpos.pair_adjust(tt, lk, g1, g2)
+                    if a[0] or a[1] or a[2] or a[3]:
+                        ent.append([g1, g2, rat(a[0]), rat(a[1])] if not (a[2] or a[3]) else [g1, g2, "999999", "999999"])
+        table.append([tag, ent])
+    ainp = dict(inp)
+    ainp["applyTags"] = atags
+    ainp["applyGlyphs"] = gl
+    return {"op": "apply", "in": ainp, "obs": {"table": table, "err": None},
+            "tags": ["apply"] + [t for t in tags if t in ("bidir", "alts")] + (["apply:unregistered-tag-falls-back"] if sf else []),
+            "nontrivial": rich and any(e for _, e in table)}
 
 
 def agree(req, rep):
@@ -356,6 +387,9 @@ def agree(req, rep):
         return o.get("err") is None and m == {"entries": sum(len(e) for _, e in o["applied1"])}
     if o.get("err") is not None:
         return False
+    if req["op"] == "apply":
+        # the Lean application semantics on the model's program == the independent interpreter on the compiled font
+        return m == o["table"]
     p = o["program"]
     return m["lookups"] == p["lookups"] and m["kern"] == p["kern"] and m["dist"] == p["dist"]
 
